@@ -89,6 +89,11 @@ CHECKS = {
             "distinct (issuer resources, entitlement, certificate "
             "resources) triples at issuer shrinks and distinct (parent, "
             "entitlement, held classes) triples at convergence."
+            " Round d: three more boundary scripts - the issuer loses part "
+            "(or all) of what the child is entitled to and regains it "
+            "before the child synchronises again (convergence rounds "
+            "withheld until the end of the script), and the issuer shrinks "
+            "while in the staging / old-key stage of its own key roll. "
         ),
         "assumptions": COMMON_ASSUMPTIONS + [
             "requested resource limits are not exercised by local "
@@ -270,6 +275,9 @@ CHECKS = {
             "entries and corrupted CSRs, child add/update/remove. "
             "distinct_nontrivial = distinct (state class, operation type, "
             "set of violated clauses or 'none')."
+            " Round d: definitions that are already configured (router keys "
+            "of the preset) are re-submitted in every state class - refused "
+            "exactly when their AS is no longer held. "
         ),
         "assumptions": COMMON_ASSUMPTIONS + [
             "requests enter at CaManager; JSON/HTTP parsing in front of it "
@@ -572,6 +580,14 @@ CHECKS = {
             "threads entered the critical section with at least two "
             "switches between threads + distinct (victim, yield site, "
             "intruder overlapped or not) directed situations."
+            " (a2) toy write-ahead-log entity on the bare WalStore: 1-6 "
+            "threads send appends / rejected / no-op commands and reads "
+            "through the command-taking instance while a second instance "
+            "over the same storage writes snapshots; acknowledged ids "
+            "exactly once, prefix-closed reads, revision = number of "
+            "accepted commands in every returned state, a freshly opened "
+            "instance reads back the same state and continues at revision + "
+            "1. "
         ),
         "assumptions": COMMON_ASSUMPTIONS + [
             "interleavings are those the OS scheduler produces under the "
@@ -811,6 +827,12 @@ CHECKS = {
             "distinct_nontrivial = distinct (back-end, set of operation "
             "kinds in the round) mixes; lock_order_pairs lists the "
             "(previous site -> lock site) pairs seen by the yield hook."
+            " Deadlock verdict (round d): calls in flight are registered at "
+            "the client boundary; a window of 20 s without any call "
+            "returning, with at least 90% of 250 ms samples finding every "
+            "other thread asleep and at most 1 s of CPU used by the "
+            "process, is the witness; calls outstanding after 150 s while "
+            "the process keeps working are inconclusive. "
         ),
         "assumptions": COMMON_ASSUMPTIONS + [
             "interleavings are sampled from the OS scheduler under seeded "
@@ -858,6 +880,11 @@ CHECKS = {
             "as-is:no-snapshot, as-is:snapshot+tail, as-is:snapshot-only, "
             "pure (WAL: oldest-snapshot+all-sets), old-snapshot+tail, "
             "resnapshot."
+            " Round d: the scripted block also plays a publisher that is "
+            "not a CA of the instance, whose staged changes cancel out "
+            "completely (publish + withdraw of one object between two RRDP "
+            "updates); the snapshot job runs exactly then and a comparison "
+            "point follows. "
         ),
         "assumptions": COMMON_ASSUMPTIONS + [
             "the running instance has no accessor for repository access/"
